@@ -39,6 +39,20 @@ using wire::Bytes;
 
 namespace {
 
+template <typename D>
+std::unique_ptr<D> cloneIfCopyable(const D& d)
+{
+#ifndef VF_NO_DECODER_COPY
+    if constexpr (std::is_copy_constructible_v<D>)
+        return std::make_unique<D>(d);
+    else
+        return nullptr;
+#else
+    (void) d;
+    return nullptr;
+#endif
+}
+
 struct PktDesc
 {
     Kind kind = K_GEN_DATA;
@@ -842,8 +856,9 @@ void checkRoundTrip(Reporter& rep, Ctx& c, const Batch& b, const std::vector<std
         const auto& f = frames[fi];
         if (twinAt && fi == twinAt)
         {
-            twin = std::make_unique<Decoder>(dec);
-            c.count("roundtrip_decoder_copied_between_two_frames");
+            twin = cloneIfCopyable(dec);
+            if (twin)
+                c.count("roundtrip_decoder_copied_between_two_frames");
         }
         if (twin)
             twinCount += twin->decode(f.data(), f.size()).size();
